@@ -1,5 +1,7 @@
 """C02 — acknowledged commits survive crashes (E4: syscall trace + crash-image enumeration)."""
 from . import crashwl as W
+
+PARAM_SECTIONS = ["wal"]
 from . import crash as K
 
 MODEL_TARGETS = []
